@@ -217,6 +217,15 @@ MODEL_FUNCS = {"sum", "nansum", "prod", "nanprod", "max", "nanmax", "min", "nanm
 REFUSALS = ("ValueError", "NotImplementedError", "ImportError")
 
 
+def unrepresentable_fill(case, res):
+    """a negative user fill_value with an unsigned result dtype: NumPy itself refuses to store it (OverflowError 'Python integer
+    -5 out of bounds for uint16'); flox propagating that refusal is outside every property's domain (the fill cannot be 'verbatim')"""
+    fv = case.get("fill_value")
+    return (res.get("exc") == "Internal:OverflowError" and "out of bounds for uint" in res.get("msg", "")
+            and isinstance(fv, (int, float)) and not isinstance(fv, bool) and fv < 0
+            and (str(case.get("dtype", "")).startswith("uint") or str(case.get("out_dtype", "")).startswith("uint")))
+
+
 def eager_of(case):
     e = {k: v for k, v in case.items() if k not in ("chunks", "method", "reindex", "by_dask", "split_every", "scheduler")}
     return e
@@ -278,7 +287,7 @@ def check_reduce_cases(run, cases, pid, nontrivial_fn, grouped_fn=None, vs_eager
         if i % max(1, len(cases) // 5) == 0:
             run.sample({"case": case, "flox": impl_res.get("result", impl_res.get("exc")),
                         "numpy_oracle": orc.get("result"), "resolved": rec})
-        if not impl_res["ok"] and impl_res["exc"] in REFUSALS:
+        if not impl_res["ok"] and (impl_res["exc"] in REFUSALS or unrepresentable_fill(case, impl_res)):
             refused += 1
             continue
         if not impl_res["ok"] and not internal_is_violation:
